@@ -3,6 +3,10 @@
 M: spec/mc/MC_Transform.tla - alignment, exact replay, exact undo, append-only on every history of
    the specification's editing machine (exhaustive to a small depth + simulation), and
    MC_Steps (ExactUndo, InverseMaps per single step).
+C: spec/PMCollab.tla + spec/mc/MC_Collab.tla - the collaborative-editing protocol (authority log, clients rebasing
+   their unconfirmed steps with mapping mirrors) as a state machine: model-checked, its behaviours replayed through a
+   port of the protocol over the library, and random runs on the bundled schemas; every protocol action is an event
+   for spec/trace/Trace_Collab.tla (exact undo + exact replay over whole concurrent histories).
 T: random Transform sessions over the whole API on the bundled schemas and variants; the
    accumulator is observed after every call (also after rejected operations) and validated by
    spec/trace/Trace_Transform.tla.  Single steps: Trace_Doc!VInvert.
@@ -12,7 +16,7 @@ from __future__ import annotations
 import json
 import random
 
-from .. import core, ops, proj, schemas, sessions, steps, tlc, trace, universe
+from .. import collab, core, ops, proj, schemas, sessions, steps, tlc, trace, universe
 from ..core import Stats, Violation
 from . import c01
 from .c02 import short
@@ -166,6 +170,8 @@ def run(tier: str, seed: int, t0: float) -> int:
                 out.append(Violation(v[4:], api, f"{what}: {json.dumps(case)[:500]}",
                                      {"schema": b.schema_js["name"], "event": {k2: v2 for k2, v2 in e.items() if k2 not in ("docs", "replay")},
                                       "start_doc": b.docs[(e["docs"][0] if e.get("docs") else e.get("doc", e.get("di"))) - 1]}, sig))
+    # ---- C: collaborative histories
+    collab.stage(tier, seed, rng, stats, out)
     need = [("verdict:ok", 500)]
     for op in ("replace", "delete", "insert", "replace_range", "delete_range", "add_mark", "remove_mark", "split", "join", "lift", "wrap",
                "set_block_type", "set_node_markup", "add_node_mark"):
@@ -178,7 +184,9 @@ def run(tier: str, seed: int, t0: float) -> int:
     return core.finish("C04", tier, seed, stats, out, t0,
                        rule="Transform sessions of 1-8 random operations over the whole API (replace family, marks, split/join/lift/wrap, block type, "
                             "markup, attributes, node marks) from random valid documents of the bundled schemas and variants, observed after every call; "
-                            "single replace/replace-around/attr/doc-attr/node-mark steps under nine schemas; non-trivial = at least one recorded step",
+                            "single replace/replace-around/attr/doc-attr/node-mark steps under nine schemas; collaborative runs (2-3 clients, authority log, "
+                            "rebasing with mirrors): all interleavings of a small model, simulated behaviours replayed into the library, random runs with the "
+                            "steps of real Transform operations; non-trivial = at least one recorded step / a receive that rebases",
                        assumptions=["spec-level replay/undo differences are drift; the contract is judged on the library's own apply/invert chain",
                                     "projection proj/unproj", "TLC/SANY, Json module"])
 
